@@ -103,6 +103,10 @@ pub struct Report {
     pub machinery_errors: Vec<String>,
     /// Counters that must be non-zero (vacuity guard): (part, counter).
     pub required: Vec<(String, String)>,
+    /// Real-time watchdog per case: a case of a `run_part` part that has not returned after this
+    /// long did not terminate (reported as a violation; the process then exits, the stuck thread
+    /// cannot be stopped).  Default 300 s (`VERIF_CASE_LIMIT`); the wire-level checks set seconds.
+    pub case_limit: Duration,
 }
 
 pub fn threads() -> usize {
@@ -134,6 +138,7 @@ impl Report {
             all_states: HashSet::new(),
             machinery_errors: vec![],
             required: vec![],
+            case_limit: Duration::from_secs(std::env::var("VERIF_CASE_LIMIT").ok().and_then(|s| s.parse().ok()).unwrap_or(300)),
         }
     }
 
@@ -177,7 +182,20 @@ impl Report {
             }
             let idx: u64 = idx.parse().unwrap_or(0);
             println!("== replay part {} case {}: {}", pn, idx, part.describe(idx));
-            let r = part.run(idx, true);
+            let limit = self.case_limit;
+            let r = std::thread::scope(|s| {
+                let h = s.spawn(|| part.run(idx, true));
+                let t0 = Instant::now();
+                while !h.is_finished() {
+                    if t0.elapsed() > limit {
+                        println!("   VIOL {}|case-did-not-terminate|{} :: no result after {:?} of real time", self.property, pn, limit);
+                        println!("== 1 violation(s)");
+                        std::process::exit(1);
+                    }
+                    std::thread::sleep(Duration::from_millis(20));
+                }
+                h.join().expect("case thread")
+            });
             for v in &r.viols {
                 println!("   VIOL {} :: {}", v.sig, v.detail);
             }
@@ -208,9 +226,19 @@ impl Report {
         let accs: Mutex<Vec<Acc>> = Mutex::new(vec![]);
         let nthreads = threads().min(n.max(1) as usize).max(1);
         let progress = std::env::var("VERIF_PROGRESS").is_ok();
+        // watchdog: (case index in progress or u64::MAX, milliseconds since t0 when it began)
+        let slots: Vec<(AtomicU64, AtomicU64)> = (0..nthreads).map(|_| (AtomicU64::new(u64::MAX), AtomicU64::new(0))).collect();
+        let workers_done = AtomicU64::new(0);
+        let case_limit = self.case_limit;
+        let mut stuck: Option<u64> = None;
         std::thread::scope(|s| {
-            for _ in 0..nthreads {
-                s.spawn(|| {
+            for w in 0..nthreads {
+                let slots = &slots;
+                let workers_done = &workers_done;
+                let accs = &accs;
+                let next = &next;
+                let capped = &capped;
+                s.spawn(move || {
                     let mut a = Acc {
                         executed: 0,
                         nontrivial: 0,
@@ -234,7 +262,10 @@ impl Report {
                             if progress {
                                 eprintln!("    case {idx} start");
                             }
+                            slots[w].1.store(t0.elapsed().as_millis() as u64, Ordering::Relaxed);
+                            slots[w].0.store(idx, Ordering::Release);
                             let r = part.run(idx, false);
+                            slots[w].0.store(u64::MAX, Ordering::Release);
                             a.executed += 1;
                             a.nontrivial += r.nontrivial as u64;
                             a.transitions += r.transitions;
@@ -257,7 +288,27 @@ impl Report {
                         }
                     }
                     accs.lock().unwrap().push(a);
+                    workers_done.fetch_add(1, Ordering::Release);
                 });
+            }
+            // the spawning thread is the watchdog
+            while workers_done.load(Ordering::Acquire) < nthreads as u64 {
+                std::thread::sleep(Duration::from_millis(25));
+                let now_ms = t0.elapsed().as_millis() as u64;
+                for sl in slots.iter() {
+                    let idx = sl.0.load(Ordering::Acquire);
+                    if idx != u64::MAX && now_ms.saturating_sub(sl.1.load(Ordering::Relaxed)) > case_limit.as_millis() as u64 && sl.0.load(Ordering::Acquire) == idx {
+                        stuck = Some(idx);
+                    }
+                }
+                if let Some(idx) = stuck {
+                    // the stuck thread cannot be stopped: report from here and end the process
+                    let d = part.describe(idx);
+                    let sig = format!("{}|case-did-not-terminate|{}", self.property, part.name());
+                    self.add_found(&part.name(), json!({"index": idx}), d, viol(sig, format!("the case had not returned after {case_limit:?} of real time (the other cases of the part were abandoned)")));
+                    let code = self.finish_inner();
+                    std::process::exit(code);
+                }
             }
         });
         let accs = accs.into_inner().unwrap();
@@ -546,6 +597,10 @@ impl Report {
 
     /// Writes evidence, prints verdict lines, returns the process exit code.
     pub fn finish(mut self) -> i32 {
+        self.finish_inner()
+    }
+
+    fn finish_inner(&mut self) -> i32 {
         if std::env::var("VERIF_ONLY").is_ok() {
             println!("replay: no part of {} matched VERIF_ONLY", self.property);
             return 2;
